@@ -100,7 +100,7 @@ def run(cx):
                    ("closure", 8): "[105, 6, 5]", ("closure", 9): "[7, 7]",
                    ("nilvalue", 10): "[1, nil, 3, nil]", ("nilvalue", 11): "[[0, nil], [1, 7]]", ("waitpanic", 12): '"raised"',
                    ("nested", 13): "[50, 1225]", ("nested", 14): "42",
-                   ("go", 19): "[7, 42, 11]", ("hostspawn", 15): "[10, 20, 30, 40]", ("spawnbuiltin", 16): "[%s, %s]" % (list(range(0, 40, 2)), list(range(1, 21))), ("spawnbuiltin", 17): "[2, 3, 4]",
+                   ("go", 19): "[7, 42, 11]", ("closedsend", 20): '["err", "err", "err", "err", nil]', ("hostspawn", 15): "[10, 20, 30, 40]", ("spawnbuiltin", 16): "[%s, %s]" % (list(range(0, 40, 2)), list(range(1, 21))), ("spawnbuiltin", 17): "[2, 3, 4]",
                    ("spawnbuiltin", 18): str(list(range(0, 60, 3)))}
             if marks != exp:
                 bad_marks.append((r_["id"], marks))
